@@ -615,6 +615,28 @@ package rtpconn
 //@   assert at call DelClient order: !held(old(c).mu)
 //@   ensures unlocked: !held(old(c).mu)
 //@
+//@ -- C13 (same lock order): creating the connection calls into the group (newUpConn: Group.API, Group.GetClients), so it happens before
+//@ -- the client's own mutex is taken
+//@ func newUpConn
+//@   trusted
+//@   why rtpconn.go: creates the peer connection for an up connection of c; calls into the group of c (Group.API, Group.GetClients: both take the
+//@       group's mutex); does not touch c's own mutex
+//@   modifies *
+//@ func (*WhipClient).gotOffer
+//@   trusted
+//@   why whipclient.go: "called locked": applies the offer to c.connection and waits for ICE gathering; keeps c.mu held
+//@   requires nonnil: c != nil
+//@   requires locked: held(c.mu)
+//@   modifies *
+//@   ensures locked: held(old(c).mu)
+//@ func (*WhipClient).NewConnection
+//@   props C13 C12
+//@   requires nonnil: c != nil
+//@   assume unlocked: !held(c.mu)
+//@   modifies *
+//@   assert at call newUpConn order: !held(c.mu)
+//@   ensures unlocked: !held(old(c).mu)
+//@
 //@ func (*WhipClient).Permissions
 //@   safe
 //@   props C13 C12
